@@ -22,8 +22,9 @@ RULE = ("histories = operation sequences add(batch) / interrupted add (SQLite pr
         "Non-trivial = a query on a non-empty store; distinct = distinct (history prefix, query).")
 
 MODULES = ["m", "M", "m2", ""]
-QUALS = ["my_func", "myXfunc", "MY_FUNC", "Foo.bar", "foo", "a%b", "aXb", "a_b"]
-PREFIXES = [None, "", "my_func", "my_", "MY", "foo", "Foo", "Foo.", "a%", "a_", "a%b", "aX", "%", "_", "my_funcX"]
+QUALS = ["my_func", "myXfunc", "MY_FUNC", "Foo.bar", "foo", "a%b", "aXb", "a_b", "a*b", "a?b", "get[int]"]
+PREFIXES = [None, "", "my_func", "my_", "MY", "foo", "Foo", "Foo.", "a%", "a_", "a%b", "aX", "%", "_", "my_funcX",
+            "my?func", "my*", "a?b", "a*", "get[", "[a-z]", "*", "?"]      # GLOB / regexp metacharacters are literal too
 LIMITS = [0, 1, 2, 1000]
 UNSER = "UNSERIALISABLE"
 
